@@ -188,6 +188,14 @@ def cases(shard, nshards, seed, tier):
                     continue
                 if mine():
                     yield {"family": "solver-fault", "n": n, "pairs": pairs, "config": cfg, "behaviour": "ok" if cfg == "none" else beh}
+    # ... and every knotted pairing of up to 8 nucleotides (every conflict-graph shape on four stems) when the back-end
+    # raises or reports "not solved"
+    for n8 in range(4, 9):
+        for pairs in gen2d.matchings(n8):
+            if len(pairs) >= 2 and any(a < c < b < d or c < a < d < b for (a, b) in pairs for (c, d) in pairs):
+                for beh in ("raise", "notsolved"):
+                    if mine():
+                        yield {"family": "solver-fault", "n": n8, "pairs": pairs, "config": "cbc", "behaviour": beh}
     # dot-brackets the library derives from 3D structures (Mapping2D3D): one text per strand; structures whose
     # residue order is hostile (a chain that is not contiguous, chains out of order, reversed list, insertion codes)
     from vmon import gen3d
@@ -207,8 +215,8 @@ def cases(shard, nshards, seed, tier):
         if i % 2:
             # one balanced notation cut into strands: pairs between strands, strands that begin with a closing
             # bracket (also with '>', the closing bracket of the fourth level, which is the header character too)
-            k = rng.randint(2, 5)
-            n = rng.randint(k, 60)
+            ncut = rng.randint(2, 5)
+            n = rng.randint(ncut, 60)
             whole = gen2d.random_dotbracket(rng, n, rng.choice([2, 4, 4, 6]))
             if i % 4 == 1 and n >= 6:
                 # a duplex on the fourth level: <<<.. / >>>..
@@ -217,7 +225,7 @@ def cases(shard, nshards, seed, tier):
                 whole = "<" * m + "." * (h - m) + ">" * m + "." * (n - h - m)
                 cuts = [h]
             else:
-                cuts = sorted(rng.sample(range(1, n), k - 1))
+                cuts = sorted(rng.sample(range(1, n), ncut - 1))
             seq = gen2d.seq_for(n, rng, placeholders=False)
             prev = 0
             for s_, c in enumerate(cuts + [n]):
